@@ -76,6 +76,21 @@ let () = each_line (fun l ->
     if not (gate_ncandidate a cd) then fail "candidate";
     if not (ncandidate_ok a cd) then drf "candidate";
     dump "C" cd;
+    (* composed operations: each result is judged against the (already judged) observed operands *)
+    expect t "K";
+    let x2 = read_w t in let vb = read_w t in
+    let k1 = read_w t in let k2 = read_w t in let k3 = read_w t in let k4 = read_w t in
+    let k5 = read_w t in let k6 = read_w t in let k7 = read_w t in let k8 = read_w t in
+    if not (gate_nisect a b x2) then fail "isect";
+    if not (gate_nreverse b vb) then fail "reverse";
+    if not (gate_nunion v b k1) then fail "chain_union_of_reverse";
+    if not (gate_nunion b lz k2) then fail "chain_union_of_useless";
+    if not (gate_nunion x2 b k3) then fail "chain_union_of_isect";
+    if not (gate_nunion cd b k4) then fail "chain_union_of_candidate";
+    if not (gate_nisect v vb k5) then fail "chain_isect_of_reverses";
+    if not (gate_nreverse v k6) then fail "chain_reverse_of_reverse";
+    if not (gate_nreverse lz k7) then fail "chain_reverse_of_useless";
+    if not (gate_nunion v vb k8) then fail "chain_useless_of_union_of_reverses";
     expect t "I"; let ia = read_w t in let ib = read_w t in
     if not (nfa_same a ia && nfa_same b ib) then fail "operand_changed";
     let fails = List.rev !fails and drift = List.rev !drift in
